@@ -246,6 +246,10 @@ def main():
     # ---- canaries: the trusted base must not prove false
     can = run_verus(gen, ['canary'], rlimit=10, timeout=300)
     n_canaries = len(re.findall(r'proof fn canary_', '\n'.join(gen_lines)))
+    if can['json'] is None or can['json']['verification-results'].get('encountered-vir-error') or re.search(r'^error(\[E\d+\])?: (?!postcondition)', can['stderr'], re.M):
+        cerr = [l for l in can['stderr'].split('\n') if l.startswith('error')][:3]
+        if cerr and not all('postcondition' in l or 'aborting' in l for l in cerr):
+            print('MACHINERY: verus rejected the generated text - the code uses a construct or a name the contracts do not anchor to (needs contract work, not a verdict):\n' + '\n'.join(can['stderr'].split('\n')[:25])); sys.exit(2)
     if can['json'] is None or can['json']['verification-results']['errors'] != n_canaries or n_canaries == 0:
         print('MACHINERY: canary check inconclusive (%s of %d canaries failed as they must) - trusted base suspect' % (can['json'] and can['json']['verification-results']['errors'], n_canaries))
         print(can['stderr'][-1500:]); sys.exit(2)
